@@ -268,6 +268,9 @@ type worker struct {
 	nontrivial int
 
 	estimateChecks int
+	belowCount     int
+	belowOrder     [2]int
+	belowExample   string
 	flips          int
 	multiCoin      int
 	skipped        int
@@ -327,17 +330,27 @@ func (wk *worker) checkEstimate(ui int, u *unit, ins []inType, outs []*wire.TxOu
 	if est >= own && est <= own+slack {
 		return
 	}
-	clause := "estimate:above-true-worst-case"
-	if est < own {
-		clause = "estimate:below-true-worst-case"
-	}
 	change := "no"
 	chgName := "no change output"
 	if changeLen > 0 {
 		change = "yes"
 		chgName = fmt.Sprintf("%s change output (%d-byte script)", inNames[u.chg], changeLen)
 	}
-	wk.violate(gkey{clause, change, oc.class}, [2]int{ui, -len(ins)}, typeMask(ins), func() (string, interface{}) {
+	order := [2]int{ui, -len(ins)}
+	if est < own {
+		// (h) informational only: the property bounds the fee by the real
+		// signed size (clause c), not the estimator by a hypothetical
+		// 73-byte-signature worst case.
+		wk.belowCount++
+		if wk.belowExample == "" || order[0] < wk.belowOrder[0] || order[0] == wk.belowOrder[0] && order[1] < wk.belowOrder[1] {
+			wk.belowOrder = order
+			wk.belowExample = fmt.Sprintf("inputs %s, %s, %s: txsizes.EstimateVirtualSize = %d vB, harness worst case (72-byte DER + sighash byte and 33-byte key for ECDSA inputs, 64-byte taproot signature) = %d vB",
+				seqNames(ins), oc, chgName, est, own)
+		}
+		return
+	}
+	clause := "estimate:above-true-worst-case"
+	wk.violate(gkey{clause, change, oc.class}, order, typeMask(ins), func() (string, interface{}) {
 		ss := make([]int, len(ins))
 		wit := make([][]int, len(ins))
 		for i, t := range ins {
@@ -904,7 +917,9 @@ func Run(args []string) {
 	tot := &classStats{}
 	viol := map[gkey]*agg{}
 	outcomes := map[string]int{}
-	nontrivial, flips, multi, skipped, maxInputs, estimateChecks := 0, 0, 0, 0, 0, 0
+	nontrivial, flips, multi, skipped, maxInputs, estimateChecks, belowCount := 0, 0, 0, 0, 0, 0, 0
+	var belowOrder [2]int
+	belowExample := ""
 	sampleAt := map[int]string{}
 	for _, wk := range wks {
 		for c, s := range wk.stats {
@@ -939,6 +954,10 @@ func Run(args []string) {
 		}
 		nontrivial += wk.nontrivial
 		estimateChecks += wk.estimateChecks
+		belowCount += wk.belowCount
+		if wk.belowExample != "" && (belowExample == "" || wk.belowOrder[0] < belowOrder[0] || wk.belowOrder[0] == belowOrder[0] && wk.belowOrder[1] < belowOrder[1]) {
+			belowOrder, belowExample = wk.belowOrder, wk.belowExample
+		}
 		flips += wk.flips
 		multi += wk.multiCoin
 		skipped += wk.skipped
@@ -1014,7 +1033,7 @@ func Run(args []string) {
 		"'the rate applied to a size' is rate*vsize/1000 in whole satoshis (rounded down), as the wallet's own fee formula does",
 		"'worst-case size estimate' in the upper fee bound is txsizes.EstimateVirtualSize for the selected inputs, the requested outputs and a change output of the change script's size (the estimate always includes the change output, also when the change was dropped as dust); the dust threshold is that of the change script at 1000 sat/kvB",
 		"'required fee' in the insufficient-funds clause is the rate applied to the harness's own worst-case signed size WITH a change output (72-byte DER + sighash byte + 33-byte key for ECDSA inputs, 64-byte signature for taproot key spends) plus a slack of ceil((witness inputs + taproot inputs + 3)/4) vB for estimator conventions, over every prefix of the offered coin order",
-		"clauses (g)/(h): txsizes.EstimateVirtualSize must lie in [own worst case, own worst case + slack] for every prefix of every coin sequence, every requested output list and every change type (and without change)",
+		"clause (g): txsizes.EstimateVirtualSize must not exceed own worst case + slack, for every prefix of every coin sequence, every requested output list and every change type (and without change); an estimate below the own (73-byte ECDSA signature) worst case is only counted (estimator_below_own_worst_case_cases), not a violation: the property bounds the fee by the real signed size (clause c)",
 		"coins are offered in a fixed order by an input source with the contract of wallet.makeInputSource; keys are compressed; taproot coins are BIP86 key-spend",
 	}
 	cov := ev.Coverage{
@@ -1023,24 +1042,26 @@ func Run(args []string) {
 		"rule":                "every case is a distinct tuple (requested outputs, fee rate, ordered coin sequence, boundary prefix k, change script type, total of the first k coins); non-trivial = the authored transaction needed >= 2 coins, or the case sits next to (1 sat from) a case of the same tuple with a different outcome (insufficient / no change / change / number of inputs), i.e. on a decision boundary of the implementation",
 		"grid": fmt.Sprintf("requested outputs: %s (each %d sat); fee rates %v sat/kvB; coin sequences: all %d ordered sequences of length 1..%d over {p2pkh, nested p2wpkh, p2wpkh, p2tr}; for each sequence each boundary prefix length k; change script of each of the 4 types; total of the first k coins = sum(outputs) + X. Full grid: X = F + delta, delta in %v, F in {own worst-case fee without change, own worst-case fee with change, own worst-case fee with change + dust threshold of the change script}, for prefixes containing p2tr additionally with F computed for a 65-byte taproot signature. Every full/spec grid also contains X = own worst-case fee with change incl. estimator slack (the smallest total the insufficient-funds clause counts as covered). Spec grid: the same without the middle F. Lean grid: X in {fee without change, fee with change + dust - 1, fee with change + dust}. %s. Coins before the boundary coin get sum(outputs)/k + their own marginal fee (so k coins are needed), coins after it %d sat",
 			strings.Join(ocNames, "; "), outAmount, rates, nseq, maxLen, deltas, gridRule, laterCoin),
-		"estimate_vs_own_worst_case_checks":    estimateChecks,
-		"work_units":                           len(units),
-		"coin_sequences":                       nseq,
-		"successes":                            tot.Successes,
-		"insufficient_funds_results":           tot.Insufficient,
-		"with_change":                          tot.WithChange,
-		"no_change":                            tot.NoChange,
-		"signed_and_script_verified_txs":       tot.SignedVerified,
-		"inputs_signed_and_verified":           tot.InputsSigned,
-		"cases_needing_two_or_more_coins":      multi,
-		"decision_boundaries_straddled":        flips,
-		"max_inputs_in_authored_tx":            maxInputs,
-		"grid_points_skipped_nonpositive_coin": skipped,
-		"per_output_count_class":               stats,
-		"distinct_outcomes":                    outcomes,
-		"violation_classes_before_known":       len(viol),
-		"exhaustive":                           expired == 0,
-		"samples":                              samples,
+		"estimate_vs_own_worst_case_checks":      estimateChecks,
+		"estimator_below_own_worst_case_cases":   belowCount,
+		"estimator_below_own_worst_case_example": belowExample,
+		"work_units":                             len(units),
+		"coin_sequences":                         nseq,
+		"successes":                              tot.Successes,
+		"insufficient_funds_results":             tot.Insufficient,
+		"with_change":                            tot.WithChange,
+		"no_change":                              tot.NoChange,
+		"signed_and_script_verified_txs":         tot.SignedVerified,
+		"inputs_signed_and_verified":             tot.InputsSigned,
+		"cases_needing_two_or_more_coins":        multi,
+		"decision_boundaries_straddled":          flips,
+		"max_inputs_in_authored_tx":              maxInputs,
+		"grid_points_skipped_nonpositive_coin":   skipped,
+		"per_output_count_class":                 stats,
+		"distinct_outcomes":                      outcomes,
+		"violation_classes_before_known":         len(viol),
+		"exhaustive":                             expired == 0,
+		"samples":                                samples,
 	}
 	run.Finish(cov)
 }
